@@ -558,6 +558,7 @@ func checkWith(w *World, repo, verif, prop, tier string) int {
 			"note": "postconditions of interface-method contracts that do not speak about observation ghosts are checked against the contract of each implementing method; the others, and all frames, stay trusted"},
 		"renamed_locals":             w.renamedLocals,
 		"renamed_functions":          w.renamedFuncs,
+		"loops_moved_into_helpers":   w.movedLoops,
 		"obligations":                nObl,
 		"discharged":                 nDis,
 		"checker_cmd":                fmt.Sprintf("/verif/bin/check %s %s  (govc: go/ssa of /repo -> SMT-LIB; z3-new 5.1.0, cvc5 1.0.3, z3 4.8.12)", prop, tier),
